@@ -226,7 +226,7 @@ func oracle(w *bufio.Writer, n int) {
 	}
 	for i := 0; i < n; i++ {
 		tail := randBytes(r, r.Intn(5), false)
-		switch i % 6 {
+		switch i % 7 {
 		case 0:
 			counts["quoted"]++
 			args := randArgs(r)
@@ -314,6 +314,31 @@ func oracle(w *bufio.Writer, n int) {
 			if got := encList(toB(got1)) + " ; " + encList(toB(got2)); got != want {
 				fail("next", input, want, got)
 			}
+		case 5:
+			// only a backslash IMMEDIATELY before the newline continues the line: `w1 \<blanks>\n w2\n`
+			// is two commands (the newline after the blanks is the command's newline)
+			counts["escblank"]++
+			a, b := plainWord(), plainWord()
+			input := append(append([]byte{}, a...), ' ', '\\')
+			for k := 1 + r.Intn(2); k > 0; k-- {
+				input = append(input, " \t"[r.Intn(2)])
+			}
+			input = append(input, '\n')
+			input = append(append(input, b...), '\n')
+			rd := bytes.NewReader(input)
+			var got1, got2 []string
+			var e1, e2 error
+			if p, _ := hx.Guard(func() {
+				got1, _, e1 = varutil.ReadArguments(rd)
+				got2, _, e2 = varutil.ReadArguments(rd)
+			}); p || e1 != nil || e2 != nil {
+				fail("escblank", input, "two commands", "panic-or-error")
+				break
+			}
+			want := hx.Enc(a) + " ; " + hx.Enc(b)
+			if got := strings.Join(encStrs(got1), ",") + " ; " + strings.Join(encStrs(got2), ","); got != want {
+				fail("escblank", input, want, got)
+			}
 		default:
 			counts["inject"]++
 			// positional p0..pk interleaved with named keys; expectation built directly
@@ -369,6 +394,14 @@ func oracle(w *bufio.Writer, n int) {
 	}
 	sort.Strings(cs)
 	fmt.Fprintf(w, "oracle cases=%d fails=%d %s\n", 2*n, fails, strings.Join(cs, " "))
+}
+
+func encStrs(l []string) []string {
+	o := make([]string, len(l))
+	for i, s := range l {
+		o[i] = hx.Enc([]byte(s))
+	}
+	return o
 }
 
 func main() {
